@@ -324,6 +324,8 @@ def check(ctx):
                                                                                                    fact_key('data', True), fact_key('len(data) >= 1', True)))
         ctx.inst('R6', rn, 'every-frame-passed-on', pqn is not None and not extra, 'a tunnelled frame is dropped under %s (a full CRTP packet is 1 header + 30 payload bytes)' % extra)
 
+    from .c08 import packet_contract_rules
+    packet_contract_rules(ctx, 'R6', size=False)      # the packet object the tunnel fills and hands on: a payload buffer of its own, header decoded for every byte (shared with C08.R4)
     # observers stay observers: a debug line in the receive path must not call something that changes the router (transport() marks
     # the router as disconnected, the routing thread then stops queueing)
     logging_purity_rules(ctx, 'R5', [CPX, TR, TCP, SER])
